@@ -401,7 +401,16 @@ fn drain_dev_log(
                             ev["restok"] = json!(ok);
                             ev["chg"] = json!(chg);
                             ev["chgx"] = json!(chgx);
-                            shadow.st.put(blk, &data);
+                            if reg == "fat1" {
+                                // a changed chain can make a block join or leave a directory: re-project those
+                                let before = dir_blocks(&shadow.st, g);
+                                shadow.st.put(blk, &data);
+                                let after = dir_blocks(&shadow.st, g);
+                                let up: Vec<J> = before.symmetric_difference(&after).map(|b| block_proj(g, vals, *b, &shadow.st.get(*b), after.contains(b))).collect();
+                                ev["up"] = json!(up);
+                            } else {
+                                shadow.st.put(blk, &data);
+                            }
                         }
                         "root" | "data" => {
                             let tracked = reg == "root" || g.block_cluster(blk).map(|c| g.in_window(c)).unwrap_or(false);
